@@ -20,6 +20,9 @@ import (
 
 func TestMain(m *testing.M) { rec.Main(m, "C09") }
 
+// ruleMore describes what was added to the exploration in the build phase.
+const ruleMore = "; also: \\p{Name} for every table name of Go's unicode package and class names of other notations (a sentence iff documented), ranges whose end points are surrogate code points"
+
 const rule = "strings: (a) every string up to a length bound over a reduced alphabet (the 13 metacharacters, ^ - , : and representatives a b 0 1 x p A), " +
 	"(b) canonical prints of generated pattern trees, (c) single-edit mutations of (b), (d) patterns seeded with a descending range or a min>max repetition in every spelling; " +
 	"oracle: accepted by either Parse entry point => the entire text is a sentence of the documented grammar (all-parses recogniser); canonical prints are accepted; " +
@@ -111,7 +114,7 @@ func constructs(s string) int {
 
 func TestExhaustiveShortStrings(t *testing.T) {
 	rec.Begin(t)
-	rec.Rule(rule)
+	rec.Rule(rule + ruleMore)
 	maxLen := rec.Pick(4, 5)
 	alpha := []rune(alphabet)
 	accepted, total := 0, 0
@@ -155,7 +158,7 @@ func TestExhaustiveShortStrings(t *testing.T) {
 }
 
 func TestCanonicalPrintsAndMutations(t *testing.T) {
-	rec.Rule(rule)
+	rec.Rule(rule + ruleMore)
 	edits := []rune(alphabet + ` "'/_zé`)
 	rec.Check(t, 3000, 150000, func(t *rapid.T) {
 		p := gen.Pattern(t, rapid.IntRange(0, 4).Draw(t, "depth"), false)
@@ -223,7 +226,7 @@ func spellings(r rune) []string {
 }
 
 func TestMeaninglessRangesRejected(t *testing.T) {
-	rec.Rule(rule)
+	rec.Rule(rule + ruleMore)
 	rec.Check(t, 1500, 60000, func(t *rapid.T) {
 		ctxPre := rapid.SampledFrom([]string{"", "a", "(b|", "x*", "[0-9]", "^"}).Draw(t, "pre")
 		ctxPost := map[string]string{"": "", "a": "b", "(b|": ")", "x*": "y", "[0-9]": "z", "^": "$"}[ctxPre]
@@ -277,7 +280,7 @@ func TestMeaninglessRangesRejected(t *testing.T) {
 // plus names of classes that exist in other notations.
 func TestUnicodeClassNames(t *testing.T) {
 	rec.Begin(t)
-	rec.Rule(rule)
+	rec.Rule(rule + ruleMore)
 	if rec.Shard() != 0 {
 		t.Skip("seed independent: shard 0 only")
 	}
